@@ -295,7 +295,7 @@ impl Property for C04 {
                             if let Ok(text) = std::fs::read(&fast) {
                                 if let Ok(o) = crate::cli::Invocation::new(&bin, &["compile"]).stdin(&text).run() {
                                     ctx.label("cli-compile-without-any-format");
-                                    if (o.status.success() && o.stdout != image) || (!o.status.success() && !o.stdout.is_empty()) {
+                                    if o.status.success() && o.stdout != image {
                                         return ctx.settle(Violation::new("writer-layout", format!("`fml compile` reading the AST from stdin without --input-format ends with {:?} and {} bytes on stdout that are not the image ({} bytes)", o.status, o.stdout.len(), image.len()), case()).with("origin", "cli-stdout"));
                                     }
                                 }
